@@ -159,17 +159,17 @@ def run_program_case(cid, prog, real=False):
         viols.append({"kind": "decompile-rejects-compile-output", "detail": {**detail0, "status": st2, "stderr": err2[-400:]}})
         return finish(cid, viols, "x", has_jump)
     if not viols:
-        # the API round trip is the yardstick (C02 owns the decompiler's own defects)
-        try:
-            api_text, _ = impl.decompile_es(comp.routine_ops, comp.routine_infos, comp.named_coroutines)
-        except Exception:
-            api_text = None
+        # the printed text must be a program (the compiler accepts it) that behaves like the source; this also holds for
+        # sources whose routines end without a terminator, which C02's input family does not contain
         cli_text = out2[:-1] if out2.endswith("\n") else out2
-        if api_text is not None and cli_text != api_text:
-            same = behaves_like(prog, cli_text)
-            api_same = behaves_like(prog, api_text)
-            if same is False and api_same is True:
-                viols.append({"kind": "round-trip-behaves-differently", "detail": {**detail0, "cli_text": cli_text, "api_text": api_text}})
+        try:
+            impl.compile_es(cli_text)
+        except Exception as e:
+            viols.append({"kind": "round-trip-text-rejected", "detail": {**detail0, "cli_text": cli_text,
+                                                                          "error": f"{type(e).__name__}: {e}"[:200]}})
+        else:
+            if behaves_like(prog, cli_text) is False:
+                viols.append({"kind": "round-trip-behaves-differently", "detail": {**detail0, "cli_text": cli_text}})
     return finish(cid, viols, "ok", has_jump)
 
 
